@@ -4,6 +4,7 @@
 //!       generates cases, executes them on the implementation, writes <prefix>.ops / <prefix>.impl
 //!   cwmt-harness exec --slice <name> <file.ops>
 //!       executes an ops file (same format, `case` separators) and prints the outputs to stdout
+mod bank;
 mod kv;
 mod sexp;
 mod util;
@@ -19,6 +20,7 @@ pub fn exec_case(slice: &str, lines: &[String]) -> Vec<String> {
     let r = util::guarded(|| match slice {
         "overlay" => kv::exec_overlay(lines),
         "views" => kv::exec_views(lines),
+        "bank" => bank::exec_bank(lines),
         s if s.starts_with("wasm") => wasm::exec_wasm(lines),
         _ => panic!("unknown slice {}", slice),
     });
@@ -38,6 +40,7 @@ pub fn gen_case(slice: &str, rng: &mut Rng, thorough: bool) -> Vec<String> {
     match slice {
         "overlay" => kv::gen_overlay(rng, thorough),
         "views" => kv::gen_views(rng, thorough),
+        "bank" => bank::gen_bank(rng, thorough),
         "wasm" => wasm_gen::gen_wasm(rng, thorough),
         "wasm-admin" => wasm_gen2::gen_admin(rng, thorough),
         "wasm-codes" => wasm_gen2::gen_codes(rng, thorough),
